@@ -119,7 +119,7 @@ PROPS = {
         rule="random schemas (1-4 numeric fields + optional escaped string field) x two codecs (library-composed, independent); per schema random histories with map, iteration, extremes, range and size monitors against a model ordered by an independently written tuple comparator; "
              "distinct_nontrivial = distinct (schema, key set) contents",
         assumptions=COMMON_ASSUME + ["codecs are checked against the contract (injective, prefix-free, order-preserving) on generated tuples before use"],
-        floors=lambda t: ["iter_all", "range_nonempty", "ext_minimum", "size_checks", "op_search_hit"],
+        floors=lambda t: ["iter_all", "range_nonempty", "ext_minimum", "size_checks", "op_search_hit", "codec_contract_pairs"],
         technique="reference-model monitor over randomly generated codecs (programs) and histories",
     ),
 }
